@@ -297,6 +297,26 @@ fn main()
 				other => println!("{other:?}"),
 			}
 		}
+		"anchor-sig" =>
+		{
+			// Print the signature of the panic (if any) that the program on stdin causes in the
+			// first-generation pipeline of the current tree. Used to re-anchor known findings whose
+			// panic site has moved to a differently named function.
+			use std::io::Read;
+			let mut text = String::new();
+			std::io::stdin().read_to_string(&mut text).unwrap();
+			pool::install_panic_hook();
+			let r = std::panic::catch_unwind(|| subjects::alpha::compile_one(&text, subjects::alpha::FULL));
+			match r
+			{
+				Ok(_) => println!("none"),
+				Err(_) =>
+				{
+					let (site, message) = pool::take_last_panic();
+					println!("panic@{}", util::site_signature(&site, &message));
+				}
+			}
+		}
 		"list" =>
 		{
 			for c in registry()
